@@ -104,6 +104,16 @@ def pick(pool, i):
   raise Reject()
 
 
+def untraced(fn, *a, **k):
+  """run fn outside CrossHair's tracer (real jax/numpy calls on concrete values
+  must not be interpreted symbolically); plain call when not tracing"""
+  from crosshair.tracers import is_tracing
+  if is_tracing():
+    with NoTracing():
+      return fn(*a, **k)
+  return fn(*a, **k)
+
+
 def concretize(x, lo, hi):
   """fork one path per value so that x is a plain int (needed before a value
   crosses a C boundary such as pickle/msgpack/jax arrays)"""
